@@ -7,16 +7,18 @@ TRUSTED_BASE = [
     "Print Assumptions of every theorem in coq/Properties/C16.v: closed under the global context",
     "hand-written model coq/Model/Metrics.v: live objects as lists, gauges moved by +1 at creation and -1 per dropped object, traffic counters moved by transfers only",
     "translator tools/gen_tables.py -> Generated/MetricsFacts.v (series names and label, own registry gathered, guards inc in new / dec in drop and where they are held, direction mapping of the update callback, pipes report sent bytes only, listener paths, HTTP/1.1 fallback of the metrics listener)",
-    "the UDP socket gauge is exercised by C07's live runs (outbound_udp_sockets follows the flows); this check drives sessions and TCP tunnels",
+    "the real endpoint (Core::listen with its metrics listener on loopback): sessions over HTTP/1.1-TLS, HTTP/2-TLS and HTTP/3-QUIC with tunnels and a UDP multiplexer stream, /metrics read over TCP while live and after every client has gone",
+    "hand-written model coq/Model/QuicTimers.v of the QUIC multiplexer's timer bookkeeping (facts QUIC_TIMER_ARM_ENABLED_WHENEVER_ARMED, QUIC_EXPIRED_TIMERS_REARMED in Generated/TimeoutFacts.v); quiche's own timers are the environment function `next`",
     "extraction + driver.ml, cross-checked against vm_compute; harness doors verif::session, verif::metrics::{snapshot, collect, serve_connection}",
 ]
 ASSUMPTIONS = [
-    "a quiescent moment is reached 120 ms after the last operation (loopback sockets, in-memory transports)",
+    "a quiescent moment is reached 120 ms after the last operation (loopback sockets, in-memory transports); through the real endpoint the gauges are given up to 10 s to return to zero after the clients left (a QUIC connection is released by its drain timer)",
     "prometheus' text encoder is library code; the text is inspected for the documented series names, the protocol_type label and the gauge values",
 ]
 RULE = ("histories of up to 14 operations over up to 4 sessions (HTTP/1.1 and HTTP/2): open session, CONNECT + upload u in {8, 100, 5000, 70000} + download d in {1, 300, 100000} (the download is the acknowledgement that the upload was relayed), "
         "failed CONNECT (closed port), end an HTTP/2 tunnel, close a session with open tunnels, snapshots in between and at the end (all closed -> gauges 0), "
-        "Metrics::collect text, GET /metrics, /health-check, /other on the metrics listener with HTTP/1.1 enabled and disabled; non-trivial = every case; distinct = distinct history")
+        "Metrics::collect text, GET /metrics, /health-check, /other on the metrics listener with HTTP/1.1 enabled and disabled; through the real endpoint: one session per transport (any subset) with a tunnel uploading u and downloading d, "
+        "a multiplexer stream with 1..5 flows on one transport (its own connection on HTTP/1.1), all gauges and the six traffic counters read from the metrics listener live and after the clients left; non-trivial = every case; distinct = distinct history")
 
 
 # real sockets / real time: a verdict must persist when the case is re-run on its own (2 of 3)
@@ -39,6 +41,17 @@ def gen_cases(rng, ctx):
     for k, n, ln in ([(0, 5, 100), (2, 6, 300), (3, 7, 1200), (1, 4, 50), (4, 9, 1)] + ([(rng.below(5), rng.range(1, 12), rng.choice([1, 64, 1400])) for _ in range(12)] if thorough else [])):
         l = line("c16_udp", [[k, n, ln]])
         cases.append(Case(l, l, kind="datagrams:drop-every-%d" % k, nontrivial=k != 0, meta={"udp": True, "k": k, "n": n, "len": ln}))
+    # the real endpoint with its metrics listener: a session per transport with a tunnel that stays open, optionally a UDP
+    # multiplexer stream on one of them; /metrics while everything is live and quiet, and again after every client has gone
+    fronts = [[1000, 5000, 2000, 7000, 3000, 9000, 0, 0, 0], [0, 0, 100000, 300000, 0, 0, 3, 4, 100], [50000, 8, 0, 0, 70000, 200000, 1, 2, 33],
+              [8, 1, 0, 0, 0, 0, 2, 5, 1200], [0, 0, 0, 0, 9, 70001, 0, 0, 0]]
+    for _ in range(10 if thorough else 2):
+        f = [rng.choice([0, 8, 999, 66000]), rng.choice([1, 500, 99999]), rng.choice([0, 8, 999, 66000]), rng.choice([1, 500, 99999]),
+             rng.choice([0, 8, 999, 66000]), rng.choice([1, 500, 99999]), rng.below(4), rng.range(1, 6), rng.choice([1, 64, 1300])]
+        fronts.append(f)
+    for f in fronts:
+        l = line("c16_front", [f])
+        cases.append(Case(l, l, kind="endpoint:metrics-listener", nontrivial=True, meta={"front": f}))
     for i in range(60 if thorough else 16):
         ops = []
         sessions = []      # (index, proto, closed, used_h1)
@@ -113,6 +126,52 @@ def judge(case, impl, model, spec, ctx):
             return [("violation", "%s: %d bytes reported for the peer-to-client direction, %d bytes were relayed to the client" % (what, down, client_got))]
         if model is not None and impl != model:
             return [("disagree", "%s: %s vs model %s" % (what, impl, model))]
+        return []
+    if case.meta.get("front"):
+        if impl == "996":
+            ctx.setdefault("skipped_env", []).append(case.kind)
+            return []
+        f = case.meta["front"]
+        t = [untok(x) for x in impl.split()]
+        st, live, after, misc = t[0], t[1], t[2], t[3]
+        ud = [(f[0], f[1]), (f[2], f[3]), (f[4], f[5])]
+        udp, k, plen = f[6], f[7], f[8]
+        what = "real endpoint, tunnels (upload, download) per transport %s, multiplexer on transport %d with %d flows of %d bytes" % (ud, udp, k, plen)
+        for i in range(3):
+            if ud[i][0] and st[i] != 200:
+                return [("disagree", "%s: CONNECT over transport %d answered %d" % (what, i + 1, st[i]))]
+        if udp and (st[3] != 200 or st[4] != k):
+            return [("disagree", "%s: the multiplexer request answered %d and %d of %d replies came back" % (what, st[3], st[4], k))]
+        # independent reference: what is alive and what was relayed
+        sess = [1 if ud[i][0] else 0 for i in range(3)]
+        if udp == 1:
+            sess[0] += 1
+        elif udp and not ud[udp - 1][0]:
+            sess[udp - 1] = 1
+        inb = [max(ud[i][0], 8) if ud[i][0] else 0 for i in range(3)]
+        outb = [ud[i][1] if ud[i][0] else 0 for i in range(3)]
+        if udp:
+            inb[udp - 1] += k * plen
+            outb[udp - 1] += k * plen
+        ref_live = sess + [sum(1 for i in range(3) if ud[i][0]), k if udp else 0] + inb + outb
+        ref_after = [0, 0, 0, 0, 0] + inb + outb
+        names = ["client_sessions{HTTP1}", "client_sessions{HTTP2}", "client_sessions{HTTP3}", "outbound_tcp_sockets", "outbound_udp_sockets",
+                 "inbound_traffic_bytes{HTTP1}", "inbound_traffic_bytes{HTTP2}", "inbound_traffic_bytes{HTTP3}",
+                 "outbound_traffic_bytes{HTTP1}", "outbound_traffic_bytes{HTTP2}", "outbound_traffic_bytes{HTTP3}"]
+        for moment, got, ref in (("while every session is live and quiet", live, ref_live), ("%d ms after every client has gone" % misc[3], after, ref_after)):
+            if got != ref:
+                j = next(i for i in range(11) if got[i] != ref[i])
+                return [("violation", "%s: GET /metrics %s: %s = %d, live objects / relayed bytes: %d" % (what, moment, names[j], got[j], ref[j]))]
+        if misc[0] != 200:
+            return [("violation", "%s: /health-check on the metrics listener answered %d" % (what, misc[0]))]
+        if misc[1] != 31:
+            return [("violation", "%s: GET /metrics lacks documented series (present mask %d of client_sessions|inbound|outbound|tcp|udp)" % (what, misc[1]))]
+        if misc[2] != 400:
+            return [("violation", "%s: another path on the metrics listener answered %d" % (what, misc[2]))]
+        if model:
+            m = [untok(x) for x in model.split()]
+            if m[0] != live or m[1] != after:
+                return [("disagree", "%s: snapshots %s / %s differ from the bookkeeping model %s / %s" % (what, live, after, m[0], m[1]))]
         return []
     io = [untok(t) for t in impl.split()]
     mo = [untok(t) for t in model.split()] if model else []
